@@ -4,6 +4,7 @@ import (
 	"fmt"
 
 	"verifharness/core"
+	"verifharness/enc/ev"
 	"verifharness/gen"
 	"verifharness/hist"
 	"verifharness/run"
@@ -21,6 +22,7 @@ func init() {
 		if c.Replay == "" {
 			c15Rebind(c)
 			c15Recount(c)
+			c15ManyIDs(c)
 		}
 	})
 }
@@ -181,6 +183,76 @@ func c15Recount(c *core.Ctx) {
 				c.Violation("c15:recount:"+d.Kind, fmt.Sprintf("history %d (%s), id re-announced with another column count, stream went on: %s", idx, how, d), witnessOf(scn, h, s, nil))
 			} else {
 				c.Cell("recount:attributed-to-the-new-shape")
+			}
+		}
+		s.Close()
+	}
+}
+
+// c15ManyIDs: one stream announces hundreds of distinct table ids (a server with
+// many tables, or table-cache evictions on the master) while one long-lived
+// table is announced in every statement, before the new id. Whatever the
+// library does to bound its own bookkeeping, rows of the long-lived table must
+// still be attributed to it.
+func c15ManyIDs(c *core.Ctx) {
+	sizes := []int{300, 520}
+	if !c.Quick() {
+		sizes = []int{300, 520, 1100, 2100, 4200, 70000}
+	}
+	manyIDs(c, "c15", sizes)
+}
+
+func manyIDs(c *core.Ctx, prefix string, sizes []int) {
+	for k, n := range sizes {
+		if !c.Mine(k) {
+			continue
+		}
+		r := c.Rng(core.StrID(prefix+"manyids"), uint64(k))
+		cb := allCombos()[(k*5)%24]
+		o := cb.hopts(r)
+		o.MaxCols, o.MaxRows, o.MaxEvents, o.NoJSON = 3, 1, 1, true
+		b := gen.NewBuilder(r, o)
+		long := b.RandTable(50, "dbm", "longlived", 3)
+		tables := []*hist.Table{long}
+		b.Tables = []*hist.Table{long}
+		b.Add(hist.TxXID)
+		for i := 0; i < n; i++ {
+			f := b.RandTable(uint64(1000+i), "dbm", fmt.Sprintf("f%d", i), 2)
+			tables = append(tables, f)
+			u := b.Unit(hist.TxXID)
+			s := hist.Stmt{Kind: hist.StmtRows, MapTS: b.TS(), TableMaps: []*hist.Table{long, f}}
+			s.Rows = []hist.RowsEvent{b.RowsEvent(long, ev.RowsKind(r.Intn(3)), 1), b.RowsEvent(f, ev.KWrite, 1)}
+			if i%7 == 3 { // sometimes only the new table is used, or the order is the other way round
+				s.TableMaps = []*hist.Table{f, long}
+			}
+			u.Stmts = []hist.Stmt{s}
+			b.H.Units = append(b.H.Units, u)
+		}
+		h := b.H
+		l := h.Build()
+		start := hist.Pos{File: h.FirstFile, Off: 4}
+		exp := hist.Expect(h, l, start)
+		s, err := run.NewSession(l, tables, 1517, start, false)
+		if err != nil {
+			c.Inconclusive("cannot start master: " + err.Error())
+			return
+		}
+		for _, g := range run.LibGoroutines(nil) {
+			s.Abandon(g.ID)
+		}
+		s.M.SetDefault(&sim.Script{End: sim.EndEOF})
+		res := s.Attempt(run.NoFaults(), nil, maxWait)
+		c.Case(core.HashU64(layoutHash(l), 1517), true)
+		c.Cell("stream:hundreds-of-table-ids")
+		scn := map[string]interface{}{"mode": "many-ids", "k": k, "ids": n, "combo": cb.String()}
+		switch {
+		case res.Verdict != run.Returned:
+			c.Cell("stream-not-returned(reported under C05)")
+		case res.Panic != "":
+			c.Violation(prefix+":many-ids:panic", fmt.Sprintf("%d table ids: Stream panicked: %s", n, res.Panic), witnessOf(scn, nil, s, nil))
+		default:
+			if d := run.CompareAll(exp, res.Delivered, false); d != nil {
+				c.Violation(prefix+":many-ids:"+d.Kind, fmt.Sprintf("a stream announcing %d distinct table ids: %s (stream error: %s)", n, d, errStr(res.Err)), witnessOf(scn, nil, s, nil))
 			}
 		}
 		s.Close()
